@@ -8,7 +8,11 @@ unit, patch = sys.argv[1:3]
 d = tempfile.mkdtemp(prefix='tryside.', dir='/var/tmp')
 try:
     for sub in side_unit.COPY_DIRS:
-        shutil.copytree(os.path.join('/repo', sub), os.path.join(d, sub))
+        if os.path.isdir(os.path.join('/repo', sub)):
+            shutil.copytree(os.path.join('/repo', sub), os.path.join(d, sub), dirs_exist_ok=True)
+        else:
+            os.makedirs(os.path.dirname(os.path.join(d, sub)), exist_ok=True)
+            shutil.copy(os.path.join('/repo', sub), os.path.join(d, sub))
     r = subprocess.run(['patch', '-p1', '-s', '-f', '-d', d, '-i', os.path.abspath(patch)], capture_output=True, text=True)
     if r.returncode != 0:
         print('patch did not apply cleanly to the copied dirs:', r.stdout[-300:], r.stderr[-300:])
